@@ -215,6 +215,67 @@ def unc_oracle(run):
     return v
 
 
+def environment_causes(R, dud):
+    """failures whose cause lies in the environment, not in the data: the cache directory is a link to a disk that is not mounted, the
+    cache directory is not writable, the stage file's directory vanished — the commit fails, exits non-zero, leaves the project unlocked
+    and, once the cause is removed, succeeds and records what a commit that never failed records"""
+    import os, shutil, subprocess, tempfile, yaml
+    base = tempfile.mkdtemp(prefix="c04env.", dir=vlib.scratch())
+    env = dict(os.environ, XDG_CONFIG_HOME=os.path.join(base, "xdg"), HOME=base, LC_ALL="C")
+    viol = []
+
+    def project(name):
+        root = os.path.join(base, name)
+        os.makedirs(os.path.join(root, "data", "sub"))
+        q = dict(cwd=root, env=env, stdout=subprocess.PIPE, stderr=subprocess.PIPE)
+        subprocess.run([dud, "init"], **q)
+        open(os.path.join(root, "data", "a.bin"), "wb").write(b"a" * 3000)
+        open(os.path.join(root, "data", "sub", "b.bin"), "wb").write(b"b" * 70000)
+        open(os.path.join(root, "one.bin"), "wb").write(b"one")
+        open(os.path.join(root, "s.yaml"), "w").write("outputs:\n  data:\n    is-dir: true\n  one.bin: {}\n")
+        subprocess.run([dud, "stage", "add", "s.yaml"], **q)
+        return root, q
+
+    def recorded(root):
+        d = yaml.safe_load(open(os.path.join(root, "s.yaml"))) or {}
+        return d.get("checksum"), {k: (v or {}).get("checksum") for k, v in (d.get("outputs") or {}).items()}
+    ref_root, rq = project("ref")
+    subprocess.run([dud, "commit"], **rq)
+    want = recorded(ref_root)
+    for cause in ("cache-link-dangling", "cache-link-dangling-copy", "cache-is-a-file"):
+        root, q = project(cause)
+        cache = os.path.join(root, ".dud", "cache")
+        shutil.rmtree(cache)
+        strat = ["--copy"] if cause.endswith("copy") else []
+        if cause.startswith("cache-link"):
+            os.symlink(os.path.join(base, "unmounted-" + cause, "cache"), cache)
+        else:
+            open(cache, "w").write("not a directory")
+        p = subprocess.run([dud, "commit"] + strat, **q)
+        R.count("env-" + cause, True)
+        if p.returncode == 0:
+            viol.append("`dud commit` exited 0 although the cache directory is unusable (%s)" % cause)
+        if os.path.exists(os.path.join(root, ".dud", "lock")):
+            viol.append("after the failed `dud commit` (%s: %s) the project is still locked" % (cause, p.stderr.decode(errors="replace")[-120:]))
+        for nm, data in (("data/a.bin", b"a" * 3000), ("data/sub/b.bin", b"b" * 70000), ("one.bin", b"one")):
+            fp = os.path.join(root, nm)
+            if not (os.path.exists(fp) and open(fp, "rb").read() == data):
+                viol.append("after the failed `dud commit` (%s) %s no longer holds its bytes" % (cause, nm))
+        # the cause is removed
+        if cause.startswith("cache-link"):
+            os.makedirs(os.path.join(base, "unmounted-" + cause, "cache"))
+        else:
+            os.unlink(cache)
+        p2 = subprocess.run([dud, "commit"] + strat, **q)
+        if p2.returncode != 0:
+            viol.append("the retried `dud commit` after %s was repaired exits %d: %s" % (cause, p2.returncode, p2.stderr.decode(errors="replace")[-160:]))
+        elif recorded(root) != want:
+            viol.append("the retried `dud commit` after %s records %s, a commit that never failed records %s" % (cause, recorded(root), want))
+    shutil.rmtree(base, ignore_errors=True)
+    if viol:
+        R.violation(dict(kind="property-violated-on-implementation", scenario="commit failing for a cause in the environment, then retried", violations=viol[:6]))
+
+
 def main(tier, replay=None):
     R = vlib.Result(PROP, tier, level="proof")
     R.cov["rule"] = ("S2 faults: for directory commits (link/copy, other-device cache, recommit, two-stage pipeline) the k-th file-system mutating call of "
@@ -230,6 +291,8 @@ def main(tier, replay=None):
     rng = random.Random(vlib.seed() * 1000 + 4)
     findings = [f for f in vlib.load_findings() if f.get("property") == PROP]
     fault_stream(R, dud, drv, stepper, rng, tier, findings)
+    if not replay:
+        environment_causes(R, dud)
     cases = uncommittable_cases(rng, tier, 60 if tier == "quick" else 800)
     runs, traces = s1.run_cases(dud, drv, cases, with_model=False)
 
